@@ -34,7 +34,7 @@ Definition cvt (r : result (list (Q * Q))) : result (list (Z * Z)) :=
 TOL = 1e-9
 
 # The programs regenerated from postprocess.py (Gen/PyCuts.v, language Model/PyImp.v), run inside Coq on the same inputs.
-SRC_IMPORTS = IMPORTS + ['Model.PyImp', 'Gen.PyCuts', 'Proofs.PyCutsProofs']
+SRC_IMPORTS = IMPORTS + ['Model.PyImp', 'Gen.PyCuts', 'Proofs.PyCutsProofs', 'Proofs.PyLabelsProofs', 'Proofs.PyCutsEndToEnd']
 SRC_PRELUDE = '''
 From Coq Require Import String.
 Local Open Scope string_scope.
@@ -55,6 +55,38 @@ Definition src_straight (D0 : dendrogram) (nc : option nat) (th : option Q) (ret
                        [("dendrogram", embD D); ("n", vnat (S (List.length D))); ("n_clusters", embON nc);
                         ("threshold", embOQ th)] "cluster")
   | Err _ => (7, [])
+  end.
+'''
+SRC_PRELUDE += '''
+Definition dec_nat (v : val) : nat := match v with VInt z => Z.to_nat z | _ => 0 end.
+Definition dec_row (v : val) : nat * nat * (Z * Z) * nat :=
+  match v with
+  | VList [a; b; VNum h; s] => (dec_nat a, dec_nat b, (Qnum h, Zpos (Qden h)), dec_nat s)
+  | _ => (0, 0, (0%Z, 1%Z), 0)
+  end.
+Definition src_full_out (ret : bool) (r : pres env) : nat * list nat * list (nat * nat * (Z * Z) * nat) :=
+  match r with
+  | POk e =>
+      match e "labels" with
+      | Some (VList l) =>
+          (0, map dec_nat l,
+           if ret then match e "dendrogram_new" with Some (VList rows) => map dec_row rows | _ => [] end else [])
+      | _ => (6, [], [])
+      end
+  | PErr PValueError => (1, [], []) | PErr PIndexError => (2, [], []) | PErr PKeyError => (3, [], [])
+  | PErr PTypeError => (4, [], []) | PErr PUnbound => (5, [], [])
+  end.
+Definition src_balanced_full (D : dendrogram) (m : nat) (sort ret : bool) (answer : list nat) :=
+  src_full_out ret (exec (src_cut_balanced_all ret)
+    (env_of [("dendrogram", embD D); ("max_cluster_size", vnat m); ("sort_clusters", VBool sort);
+             ("oracle:np.argsort", VList (map vnat answer))])).
+Definition src_straight_full (D0 : dendrogram) (nc : option nat) (th : option Q) (sort ret : bool) (answer : list nat) :=
+  match cut_input D0 ret with
+  | Ok D => src_full_out ret (exec (src_cut_straight_all ret)
+              (env_of [("dendrogram", embD D); ("n", vnat (S (List.length D))); ("n_clusters", embON nc);
+                       ("threshold", embOQ th); ("sort_clusters", VBool sort);
+                       ("oracle:np.argsort", VList (map vnat answer))]))
+  | Err _ => (7, [], [])
   end.
 '''
 SRC_ERR = {1: 'ValueError', 2: 'IndexError', 3: 'KeyError', 7: 'IndexError'}
@@ -328,6 +360,51 @@ def check_source_terms(ctx, plan, impl_out, valsA):
     ctx.extra['source_terms_evaluated'] = ctx.extra.get('source_terms_evaluated', 0) + n_src
 
 
+def src_full_expr(c, oracle):
+    orc = clist(oracle or [], cnat)
+    if c['fn'] == 'straight':
+        return 'src_straight_full D %s %s %s %s %s' % (copt(c.get('n_clusters'), cnat), copt(c.get('threshold'), cqf),
+                                                       cbool(c['sort']), cbool(c['ret']), orc)
+    if c['fn'] == 'balanced':
+        return 'src_balanced_full D %d %s %s %s' % (c['max_cluster_size'], cbool(c['sort']), cbool(c['ret']), orc)
+    return '(8, @nil nat, @nil (nat * nat * (Z * Z) * nat))'
+
+
+def check_source_full(ctx, plan, impl_out, oracles):
+    """The WHOLE regenerated functions (cut core + get_labels, theorems source_cut_*_end_to_end) run inside Coq with the
+    np.argsort answer reconstructed from the implementation's labels: same labels, same reduced dendrogram, same error kind."""
+    exprs = ['let D := %s in [%s]' % (cdend(rows), '; '.join(src_full_expr(c, o) for c, o in zip(calls, orcs)))
+             for (fam, n, rows, calls), orcs in zip(plan, oracles)]
+    vals = safe_coq_eval(ctx, 'c08f', SRC_IMPORTS, exprs, prelude=SRC_PRELUDE, shard=60)
+    if vals is None:
+        return
+    n_full = 0
+    for (fam, n, rows, calls), got_all, sv_all in zip(plan, impl_out, vals):
+        jrows = [[a, b, str(h), s] for (a, b, h, s) in rows]
+        for c, got, sv in zip(calls, got_all, sv_all):
+            if c['fn'] == 'aggregate':
+                continue
+            n_full += 1
+            code, labels, drows = sv[0], sv[1], sv[2]
+            cj = {k2: (str(v) if isinstance(v, Fraction) else v) for k2, v in c.items()}
+            site = 'cut_straight' if c['fn'] == 'straight' else 'cut_balanced'
+            if code in (4, 5, 6, 8):
+                if len(ctx.proof_broken) < 12:
+                    ctx.proof_broken.append('the whole function regenerated from %s does not run under the semantics of '
+                                            'Model/PyImp.v (code %d) on %s %s' % (site, code, jrows, cj))
+                continue
+            if code == 0:
+                exp = {'ok': {'labels': list(labels), 'dendrogram': conv_rows(drows) if c['ret'] else None}}
+            else:
+                exp = {'err': SRC_ERR[code]}
+            if got != exp and not (code == 7 and 'err' in got):
+                ctx.violation(site, 'the implementation differs from the whole function regenerated from its own source (cut + '
+                              'get_labels, run under the semantics of Model/PyImp.v with the np.argsort answer read back from the '
+                              'implementation)', case=dict(n=n, dendrogram=jrows, call=cj), expected=exp, observed=got,
+                              defect='source_term_mismatch', fn=c['fn'], family=fam)
+    ctx.extra['source_terms_evaluated'] = ctx.extra.get('source_terms_evaluated', 0) + n_full
+
+
 def thresholds_for(rows, rng, limit):
     hs = sorted(set(r[2] for r in rows))
     ths = [hs[0] - 1, hs[-1] + 1] + hs + [(a + b) / 2 for a, b in zip(hs, hs[1:])]
@@ -589,8 +666,10 @@ def run(ctx, scratch):
     check_source_terms(ctx, plan, impl_out, valsA)
     exprsB = []
     n_oracle_fallback = 0
+    oracles_all = []
     for (fam, n, rows, calls), got_all, cl_all in zip(plan, impl_out, valsA or []):
         parts = []
+        oracles_all.append([])
         for c, got, clv in zip(calls, got_all, cl_all):
             oracle = None
             if c['fn'] != 'aggregate' and c['sort'] and clv[0] == 'Ok':
@@ -607,10 +686,13 @@ def run(ctx, scratch):
                     except (KeyError, ValueError):
                         n_oracle_fallback += 1
             parts.append(call_expr(c, oracle))
+            oracles_all[-1].append(oracle)
         exprsB.append('let D := %s in [%s]' % (cdend(rows), '; '.join(parts)))
     valsB = safe_coq_eval(ctx, 'c08b', IMPORTS, exprsB, prelude=PRELUDE, shard=60) if valsA is not None else None
     if valsB is None:
         valsB = [None] * len(plan)
+    if valsA is not None:
+        check_source_full(ctx, plan, impl_out, oracles_all)
 
     # ---- diff + property oracle
     kshown = 0
